@@ -14,13 +14,20 @@ package main
 //            identical copy at another path); data blobs and index entries per blob are counted.
 
 import (
+	"bytes"
 	"context"
+	"encoding/binary"
 	"fmt"
 	"os"
 	"path/filepath"
+	"runtime"
 	"sort"
+	"sync"
+	"sync/atomic"
 
 	"github.com/restic/restic/internal/backend/mem"
+	"github.com/restic/restic/internal/repository"
+	"github.com/restic/restic/internal/repository/pack"
 	"github.com/restic/restic/internal/restic"
 )
 
@@ -139,7 +146,113 @@ func c16CopyTree(src, dst string) {
 	}
 }
 
+// c16Burst: in ONE upload session, `rounds` rounds of `savers` goroutines released together by a
+// spinning barrier, all calling SaveBlob with the same fresh blob. Exactly one call per round may
+// be told known=false; afterwards every blob must occur once in the uploaded packs and have one
+// index entry. Only anomalies are listed (the normal outcome is summarised by the counters).
+func c16Burst(h *H, rounds, savers int) {
+	ctx := context.Background()
+	mb := mem.New()
+	rec := NewRecBackend(mb)
+	rec.KeepData = true
+	repo, _ := repository.TestRepositoryWithBackend(TB, rec, 0, repository.Options{Compression: repository.CompressionOff})
+	salt := h.Rng.Uint64()
+	ids := make([]restic.ID, rounds)
+	claims := make([]int32, rounds)
+	var sessErr error
+	panicked, pmsg := Protect(func() {
+		sessErr = repo.WithBlobUploader(ctx, func(ctx context.Context, up restic.BlobSaverWithAsync) error {
+			for r := 0; r < rounds; r++ {
+				data := make([]byte, 48)
+				binary.LittleEndian.PutUint64(data, uint64(r))
+				binary.LittleEndian.PutUint64(data[8:], salt)
+				ids[r] = restic.Hash(data)
+				var ready, start atomic.Int32
+				var accepted atomic.Int32
+				var firstErr atomic.Value
+				var wg sync.WaitGroup
+				for s := 0; s < savers; s++ {
+					wg.Add(1)
+					go func() {
+						defer wg.Done()
+						ready.Add(1)
+						for start.Load() == 0 {
+							runtime.Gosched()
+						}
+						_, known, _, err := up.SaveBlob(ctx, restic.DataBlob, data, restic.ID{}, false)
+						if err != nil {
+							firstErr.CompareAndSwap(nil, err)
+							return
+						}
+						if !known {
+							accepted.Add(1)
+						}
+					}()
+				}
+				for int(ready.Load()) != savers {
+					runtime.Gosched()
+				}
+				start.Store(1)
+				wg.Wait()
+				if err, ok := firstErr.Load().(error); ok && err != nil {
+					return err
+				}
+				claims[r] = accepted.Load()
+			}
+			return nil
+		})
+	})
+	h.Case("burst")
+	h.Rec("cfg", Itoa(rounds), Itoa(savers))
+	if panicked {
+		h.Rec("sess", "panic", HexS(pmsg))
+		h.End()
+		return
+	}
+	if sessErr != nil {
+		h.Rec("sess", "1", HexS(sessErr.Error()))
+		h.End()
+		return
+	}
+	h.Rec("sess", "0")
+	stored := map[restic.ID]int{}
+	npacks := 0
+	rec.mu.Lock()
+	events := append([]Event(nil), rec.Events...)
+	rec.mu.Unlock()
+	unreadable := 0
+	for _, ev := range events {
+		if ev.Op != "save" || ev.Err || ev.Type != "data" {
+			continue
+		}
+		npacks++
+		blobs, _, err := pack.List(repo.Key(), bytes.NewReader(ev.Data), int64(len(ev.Data)))
+		if err != nil {
+			unreadable++
+			continue
+		}
+		for _, b := range blobs {
+			stored[b.ID]++
+		}
+	}
+	okRounds := 0
+	for r := 0; r < rounds; r++ {
+		ent := len(repo.LookupBlob(restic.BlobHandle{Type: restic.DataBlob, ID: ids[r]}))
+		if claims[r] == 1 && stored[ids[r]] == 1 && ent == 1 {
+			okRounds++
+			continue
+		}
+		h.Rec("anom", Itoa(r), Itoa(int(claims[r])), Itoa(stored[ids[r]]), Itoa(ent))
+	}
+	h.Rec("sum", Itoa(okRounds), Itoa(npacks), Itoa(unreadable))
+	h.End()
+}
+
 func streamC16(h *H) {
+	// simultaneous submissions of the same new blob (many rounds; the racy window is tiny)
+	for i, nb := 0, h.N(4, 36); i < nb; i++ {
+		c16Burst(h, 15000, 4+h.Intn(5))
+	}
 	n := h.N(100, 3000)
 	for i := 0; i < n; i++ {
 		c44RepoCase(h, "dedup", true)
